@@ -26,6 +26,21 @@ import iso_common as I
 CID = "C20"
 VO = ["props/C20.vo", "iso/IsoGenCor.vo"] + I.VO_MODEL
 MAXV = 25
+GRAMMAR_NOTE = [
+    "spec side of every comparison = iso_text / time_text (coq/iso/IsoText.v), the grammar written from the property "
+    "text; the implementation's language iso_denotes (coq/iso/IsoSpec.v, proved equal to the model for all strings) "
+    "is iso_text with exactly two changes (theorem C20_impl_language_is_recogniser), both OPEN findings:",
+    "F-C20-2400-subus: '24:00:00.0000009' accepted as 24:00 (end-of-day check on the truncated microsecond) - a "
+    "misreading; guard finding_2400_subus, witness C20_isoparse_text_sound_refuted_2400_subus",
+    "F-C07-ordinal-digit-sep: YYYYDDD + digit separator + time rejected ('2014123412') - no misreading (C20 needs no "
+    "guard for it), a C07 finding",
+    "decisions of the text grammar: 'consistent separators' is per component (date / time / offset each basic or "
+    "extended, freely combined: C07 quantifies over them independently); 'Z' and 'z'; '-00:00' is offset zero = UTC; "
+    "with no configured separator ANY single ASCII byte separates date and time, also '+', '-', 'Z', ':', LF, NUL and "
+    "digits ('2014-01-01-12-05' = 12:00 at -05:00); a bytes separator argument isoparser(sep=b'T') raises TypeError "
+    "in the constructor and is outside the property (wrongly typed argument, no input string involved)",
+]
+MIN_EVALS = {"quick": 50000, "thorough": 500000}
 
 ALPHA = [ord(c) for c in "0123456789-:.,+TtWZz_ \tax/\n"] + [0xE9, 0xFF11, 0x663, 0x0]
 ALPHA_NAMES = {0xE9: "e-acute", 0xFF11: "fullwidth-1", 0x663: "arabic-indic-3", 0: "NUL"}
@@ -39,7 +54,7 @@ def _viol(lst, item):
 def new_out():
     return {"evals": 0, "hist": {}, "outcome": {}, "entries": {}, "kinds": {}, "nontrivial": set(),
             "concrete": [], "soft": [], "samples": [], "model_diff": 0, "spec_diff": 0, "misread": 0,
-            "bad_exc": 0, "rejects_valid": 0, "accepted": 0}
+            "bad_exc": 0, "rejects_valid": 0, "accepted": 0, "nt_accepted": set(), "nt_near_miss": set()}
 
 
 def bump(d, k, n=1):
@@ -59,8 +74,15 @@ def evaluate(o, cases, labels, nontriv, out):
         bump(out["outcome"], "accepted" if acc else "ValueError" if ri == [0, 1] else str(ri))
         if acc:
             out["accepted"] += 1
-        if nt or acc or rs[0] == 1:
+        # non-trivial = accepted by the implementation or by the text grammar, or a NEAR MISS: a string from the
+        # edit / boundary streams (within a few edits of a valid rendering) that passes the ASCII gate, i.e. whose
+        # rejection is decided by the scanner itself
+        if acc or rs[0] == 1:
             out["nontrivial"].add(I.case_hash(case))
+            out["nt_accepted"].add(I.case_hash(case))
+        elif nt and all(c < 128 for c in case[3]):
+            out["nontrivial"].add(I.case_hash(case))
+            out["nt_near_miss"].add(I.case_hash(case))
         flagged = False
         if acc and ri != rs:
             out["misread"] += 1
@@ -207,6 +229,8 @@ def job_edits(arg):
             cases, labels = [], []
     evaluate(o, cases, labels, [True] * len(cases), out)
     o.close()
+    out["stream"] = tag
+    out["bases"] = len(bases)
     return out
 
 
@@ -243,6 +267,7 @@ def job_short(arg):
     evaluate(o, cases, labels, nts, out)
     o.close()
     out["exhaustive_space"] = lab
+    out["stream"] = "short:" + tag
     return out
 
 
@@ -388,7 +413,7 @@ def main():
         return replay(argv[argv.index("--replay") + 1])
     tier = C.tier_from_argv(argv)
     t0 = time.time()
-    verdict = C.Verdict(CID)
+    verdict = C.Verdict(CID, I.MATCHERS)
     build_err = None
     try:
         C.ensure_built([I.AREA], VO)
@@ -403,6 +428,7 @@ def main():
         props = I.apply_poison(C.compile_props(CID))
     have_oracle = os.path.exists(os.path.join(C.BIN, "oracle_" + I.AREA))
     tot = new_out()
+    floors = []
     spaces, n_reg, cov_summary = [], 0, {"available": False}
     try:
       if have_oracle:
@@ -416,6 +442,7 @@ def main():
           # entry points) run in-process under coverage.py restricted to isoparser.py
           _, cov_summary = I.measure_anchor_coverage(lambda: evaluate(o, fc, fl, [True] * len(fc), res0))
           o.close()
+          res0["stream"] = "deterministic"
           q = tier == "quick"
           if q:
               nproc = 4
@@ -432,6 +459,9 @@ def main():
               for k in ("hist", "outcome", "entries", "kinds"):
                   I.merge_hist(tot[k], res[k])
               tot["nontrivial"] |= res["nontrivial"]
+              tot["nt_accepted"] |= res["nt_accepted"]
+              tot["nt_near_miss"] |= res["nt_near_miss"]
+              floors.append((res.get("stream", "?"), res["evals"], res["accepted"]))
               tot["concrete"] += res["concrete"]
               tot["soft"] += res["soft"]
               tot["samples"] += res["samples"]
@@ -443,9 +473,21 @@ def main():
                             "traceback": traceback.format_exc()[-2000:]})
     concrete = sorted(tot["concrete"], key=lambda p: (len(p["input"]["codes"]), p["input"]["codes"]))
     _codes = lambda p: (p.get("input") or {}).get("codes", [])
-    for p in concrete[:5]:
-        verdict.violation(p, concrete=True)
-    if not concrete:
+    n_real = 0
+    for p in concrete:
+        if verdict.violation(p, concrete=True):
+            n_real += 1
+            if n_real >= 5:
+                break
+    # evaluation floors: a stream that ran empty (no oracle, no bases drawn, empty job) shows nothing
+    for name, ev, acc_n in floors:
+        if ev == 0 or (name.startswith(("q-", "t-")) and acc_n == 0):
+            tot["soft"].append({"kind": "machinery: stream %r produced %d evaluations / %d accepted strings "
+                                        "(floor: > 0 each)" % (name, ev, acc_n), "input": None})
+    if not floors or tot["evals"] < MIN_EVALS[tier]:
+        tot["soft"].append({"kind": "machinery: only %d evaluations (floor %d): the correspondence did not run"
+                                    % (tot["evals"], MIN_EVALS[tier]), "input": None})
+    if not n_real:
         for p in sorted(tot["soft"], key=lambda p: len(_codes(p)))[:3]:
             verdict.violation(p, concrete=False)
     if not props["ok"] and not verdict.violations:
@@ -467,11 +509,17 @@ def main():
                 "sampled double/triple edits, for all four entry points and configured separators; (2) exhaustive "
                 "short strings (prefix + every string up to a length over a small alphabet, spaces listed in "
                 "exhaustive_spaces); (3) separator configurations, empty and single-character inputs. "
-                "str inputs; every 5th edit as bytes, every 10th as StringIO, every 20th as BytesIO. non-trivial = an edit-stream string, or a string accepted by "
-                "the implementation or the recogniser, or an exhaustive-stream string long enough to contain the "
-                "first field; distinct = distinct (entry point, configured separator, string, zero_as_utc), counted "
-                "by a 64-bit hash set" % (len(ALPHA), "".join(chr(c) for c in ALPHA if 32 <= c < 127),
+                "str inputs; every 5th edit as bytes, every 10th as StringIO, every 20th as BytesIO. non-trivial = (a) a string accepted by "
+                "the implementation or by the text grammar (distinct_accepted), or (b) a NEAR MISS (distinct_near_miss): "
+                "a rejected string of the edit / boundary / separator streams, or an exhaustive-stream string long enough "
+                "to contain the first field, that passes the ASCII gate (so its rejection is decided by the scanner, "
+                "not by _takes_ascii); distinct = distinct (entry point, configured separator, string, zero_as_utc), "
+                "counted by a 64-bit hash set" % (len(ALPHA), "".join(chr(c) for c in ALPHA if 32 <= c < 127),
                                           ", ".join(ALPHA_NAMES.values()) + ", TAB, LF"),
+        "distinct_accepted": len(tot["nt_accepted"]),
+        "distinct_near_miss": len(tot["nt_near_miss"]),
+        "stream_floors": [{"stream": n, "evaluations": e, "accepted": a} for n, e, a in floors],
+        "grammar_the_theorems_are_about": GRAMMAR_NOTE,
         "exhaustive": False,
         "exhaustive_spaces": spaces,
         "samples": tot["samples"][:12],
@@ -487,8 +535,7 @@ def main():
         "anchor_coverage_of_deterministic_streams": cov_summary,
         "partial_theorems": partial,
         "model_tie": I.model_tie(build_err, props),
-        "only_differential_tested": ["str / bytes / stream glue of _takes_ascii (identity in the model)",
-                                     "TypeError for non-text, non-bytes inputs is outside the property"],
+        "only_differential_tested": ["TypeError for non-text, non-bytes inputs is outside the property"],
         "known_findings_hit": verdict.known_hits,
     }
     C.write_evidence(CID, tier, t0, props, cov,
@@ -496,7 +543,7 @@ def main():
                       "ord_of_ymd / ymd_of_ord (coq/base/Cal.v), not verified",
                       "bytes.isdigit / int(bytes) on ASCII digits modelled by is_digit / int_acc",
                       "regex [\\.,]([0-9]+) modelled by frac_match/span_digits",
-                      "model <-> source: harness/gen_iso.py (fail-closed ast translator, accepted subset in its docstring / notes/iso.md) regenerates coq/gen/IsoGen.v from isoparser.py on every run and IsoGenThm.v proves gen_f = model_f; trusted: the translator, coq/iso/IsoGenLib.v, the AST-hash pins of _takes_ascii / __init__; the differential run ties the running bytecode and the glue"],
+                      "model <-> source: harness/gen_iso.py (fail-closed ast translator, accepted subset in its docstring / notes/iso.md) regenerates coq/gen/IsoGen.v from isoparser.py on every run and IsoGenThm.v proves gen_f = model_f; the decorator _takes_ascii is translated too (input kinds str / bytes / stream -> gen_takes_ascii); trusted: the translator, the primitives of coq/iso/IsoGenLib.v (read_in, encode_ascii, py_int, ...), the AST-hash pins of isoparser.__init__, the module tail, the import block and the (unevaluated) arguments of raise ValueError(...); the differential run ties the running bytecode"],
                      len(verdict.violations))
     print("C20 %s: obligations %d/%d, %d evaluations (%d distinct non-trivial, %d accepted), misread %d, "
           "non-ValueError %d, model-diff %d, spec-diff %d, %.1fs" % (
